@@ -266,3 +266,40 @@ def run(F, S, R, tier):
     R.guard("prov/new-snapshot", snap)
     import common as _common
     _common.effects(R, F, ['main-chain', 'verdicts'])
+
+    # F28 (known finding): COLUMN_EPOCH holds two kinds of rows: `last block hash of the previous epoch -> EpochExt` (per branch, fine) and
+    # `epoch number -> that hash`, which is an index of the MAIN chain (read by get_epoch_index: rpc get_epoch_by_number, Shared::freeze). A
+    # main-chain index may only be written where the tip moves (and undone in rollback), like attach_block / detach_block. Decided: no call that
+    # (transitively) writes the number-keyed row may be followed by the side-branch arm of verify_block (the arm that stores an ext without a
+    # verdict): if it can, the row is also written for blocks that never join the main chain.
+    def epoch_number_row():
+        import re
+        writers = []
+        for b in F.bodies_of_crate("ckb_store"):
+            for c in b.calls_to(r"StoreTransaction::insert_raw$"):
+                col = K.const_of_operand(b, c.args[1]) or ""
+                if col.endswith("COLUMN_EPOCH") and K.src_match(b.operand_sources(c.args[2]), [r"call:.*EpochExt::number$"]):
+                    writers.append(b)
+        R.sites += len(writers)
+        if not writers:
+            R.bad("order/epoch-number-row/anchor-lost", "no writer of the number-keyed COLUMN_EPOCH row found in ckb-store", [])
+            return
+        vb = F.need(VERIFY + "verify_block")
+        side = [c for c in vb.calls_to(r"StoreTransaction::insert_block_ext$")]
+        pats = ["^" + re.escape(w.path) + "$" for w in writers]
+        sites = [c for c in vb.calls if any(c.matches(K.rx(p_)) for p_ in pats)]
+        for c in vb.calls:      # helpers of ckb-chain that reach a writer
+            for cb in S.callee_bodies(c):
+                if cb.crate == "ckb_chain" and any(x.matches(K.rx(p_)) for x in cb.calls for p_ in pats):
+                    sites.append(c)
+        R.sites += len(sites) + len(side)
+        if not side:
+            R.bad("order/epoch-number-row/anchor-lost", "the side-branch arm (insert_block_ext) of verify_block not found", [vb.where()])
+            return
+        bad = [c for c in sites if any(s_.bb in vb.reachable(c.bb) for s_ in side)]
+        if bad:
+            R.bad("order/epoch-number-row/verify_block", "verify_block writes the `epoch number -> index` row of COLUMN_EPOCH (%s) for every processed epoch head, before the new-best decision: "
+                  "a side-branch epoch head replaces the main chain's row, and no reorg rewrites it (F28)" % K.short(writers[0].path), [c.where() for c in bad])
+        else:
+            R.ok("order/epoch-number-row/verify_block", "the number-keyed epoch row is written only where the tip moves", [c.where() for c in sites[:2]] or [vb.where()])
+    R.guard("order/epoch-number-row", epoch_number_row)
